@@ -93,6 +93,31 @@ func Generate(profile string, seed uint64, tier string) (*Scenario, error) {
 	case "C12c":
 		sc.Property = "C12"
 		genC12c(g, sc, tier)
+	case "C20":
+		sc.Property = "C20"
+		c := g.baseStoreCfg(tier)
+		c.PRestart, c.PNested = 0, 0
+		c.NOps = g.Range(3, 12)
+		sc.Datasets = c.Datasets
+		for _, op := range g.GenStoreHistory(c) {
+			sc.Ops = append(sc.Ops, op)
+			x := g.r.Float64()
+			switch {
+			case x < 0.30:
+				sc.Ops = append(sc.Ops, Op{K: "backup"})
+				if g.P(0.5) {
+					sc.Ops = append(sc.Ops, Op{K: "restoreCheck"})
+				}
+			case x < 0.42:
+				sc.Ops = append(sc.Ops, Op{K: "restart"})
+			case x < 0.47:
+				sc.Ops = append(sc.Ops, Op{K: "foreignBackup"})
+			}
+		}
+		sc.Ops = append(sc.Ops, Op{K: "backup"}, Op{K: "restoreCheck"})
+		if g.P(0.3) {
+			sc.Ops = append(sc.Ops, Op{K: "foreignBackup"}, Op{K: "restoreCheck"})
+		}
 	case "C19c":
 		sc.Property = "C19"
 		genC05(g, sc, tier)
@@ -360,7 +385,7 @@ func Execute(sc *Scenario) *Verdict {
 		return RunStoreScenario(sc)
 	case "C05", "C02c", "C12c", "C13c", "C19c":
 		return RunConcScenario(sc)
-	case "C04", "C07", "C12x", "C13", "C19":
+	case "C04", "C07", "C12x", "C13", "C19", "C20":
 		return RunCrashScenario(sc)
 	}
 	return execOther(sc)
